@@ -18,16 +18,27 @@ func C09(c *core.Ctx) {
 	}
 
 	c.SetCov("rule", "seeded randomised sessions with 40-bit rates at the boundaries (0, 1, 7, 8, 2^40-1), both gate bits, QFI 0..63 and per-QFI burst configurations; "+
+		"UP4 shards: the app_meter / session_meter cells named by the forwarding entries of the harness' P4Runtime switch are judged after establishments and after QER updates; "+
 		"evaluations = script steps, distinct_nontrivial = accepted session requests")
 
-	res := runE2EShards(c, "e2e-rand", nshards, "TraceE2E_C09.cfg", func(i int) interface{} {
+	nup4 := 3
+	if c.Thorough() {
+		nup4 = 6
+	}
+
+	res := runE2EMixed(c, nshards+nup4, "TraceE2E_C09.cfg", func(i int) (string, interface{}) {
 		dir, trace := shardDir(c, i)
-		return E2EParams{Dir: dir, Trace: trace, AgentBin: filepath.Join(c.BinDir, "verif-agent"), N4Addr: n4For(i),
+		if i >= nshards { // UP4: peak rate and burst of the meter cells the entries name
+			return "e2e-up4", Up4Params{Dir: dir, Trace: trace, AgentBin: filepath.Join(c.BinDir, "verif-agent"), N4Addr: n4For(i),
+				Seed: c.Seed*1000 + 950 + int64(i), Scenarios: scenarios, Steps: steps, AddFlows: i%2 == 0, Wide: i%3 == 0}
+		}
+
+		return "e2e-rand", E2EParams{Dir: dir, Trace: trace, AgentBin: filepath.Join(c.BinDir, "verif-agent"), N4Addr: n4For(i),
 			Seed: c.Seed*1000 + 900 + int64(i), Scenarios: scenarios, Steps: steps, Rejects: false, Kill: false, Alloc: 0, EndMarker: 0, QosMode: 1,
 			// QER-list shapes: the quick tier takes a seed-dependent stride through the enumeration, the thorough tier all of it
 			Shapes: shapes, ShapeFrom: shapeFrom(c, i, nshards), ShapeStep: shapeStep(c, nshards)}
 	})
-	judgeE2E(c, res, map[string]bool{"InEnvelope": true, "EnvDistinctMatchKeys": true})
+	judgeE2E(c, res, map[string]bool{"InEnvelope": true, "EnvDistinctMatchKeys": true, "Up4Envelope": true})
 }
 
 const e2eShapeCount = (16*16 + 16*16*16) * 64
